@@ -1,8 +1,9 @@
 import Chartparse.Proofs.ReFieldInv
 import Chartparse.Proofs.ReNorm
+import Chartparse.Proofs.MetaProofs
 /-! Property theorems of C10 (statements only; helper lemmas live in `Proofs/`). -/
 namespace Chartparse.Props.C10
-open Chartparse Chartparse.Rx
+open Chartparse Chartparse.Rx Chartparse.Meta
 
 /-- C10: a quoted string value is captured verbatim — inner quotes, blanks, `=`, other field names included -/
 theorem field_str_verbatim :
@@ -12,20 +13,106 @@ theorem field_str_verbatim :
       = some [(1, v)] :=
   @Chartparse.Rx.field_str_verbatim
 
-/-- C10: whatever a field recogniser accepts starts (after blanks) with `<Name> = ` -/
+/-- C10: whatever a field recogniser (any value class) accepts starts, after blanks, with `<Name> = ` -/
 theorem field_prefix :
-    ∀ (name : Str) (s : Str) (caps : Caps) (h : (fieldStrRe name).matchGroups s = some caps),
+    ∀ (vs : CSet) (name : Str) (s : Str) (caps : Caps) (h : (fieldRe vs name).matchGroups s = some caps),
     ∃ p rest, s = p ++ (name ++ [32, 61, 32]) ++ rest ∧ AllIn .space p :=
   @Chartparse.Rx.field_prefix
 
-/-- C10, non-interference: a line claimed by one field is never claimed by a field with another name.
-    Names are non-empty, start with a non-blank and contain no blank (an obligation on the generated table). -/
+/-- C10, non-interference for all strings: a line claimed by one field is never claimed by a field with another
+    name, whatever the two value classes. Names are non-empty, start with a non-blank and contain no blank
+    (an obligation on the generated table, `gen_fields`). -/
 theorem field_disjoint :
     ∀ (a a' : Nat) (n n' : Str) (s : Str) (c c' : Caps)
     (ha : CSet.space.test a = false) (ha' : CSet.space.test a' = false)
-    (hn : ∀ x ∈ a :: n, x ≠ 32) (hn' : ∀ x ∈ a' :: n', x ≠ 32)
-    (h : (fieldStrRe (a :: n)).matchGroups s = some c) (h' : (fieldStrRe (a' :: n')).matchGroups s = some c'),
+    (hn : ∀ x ∈ a :: n, x ≠ 32) (hn' : ∀ x ∈ a' :: n', x ≠ 32) (vs vs' : CSet)
+    (h : (fieldRe vs (a :: n)).matchGroups s = some c) (h' : (fieldRe vs' (a' :: n')).matchGroups s = some c'),
     a :: n = a' :: n' :=
   @Chartparse.Rx.field_disjoint
+
+/-- value class of a field by its processing function: int ↦ `\\d`, str ↦ `.`, Player2 ↦ `[^"]` -/
+def vsOf (proc : Nat) : CSet := if proc = 0 then .digit else if proc = 1 then .any else .notLit 34
+
+/-- obligation on the regenerated field table: 24 recognisers, each with the normal form of the factory template for
+    its own Pascal name and value class; names non-empty, blank-free, starting with a non-blank, pairwise distinct -/
+def fieldsOK : Bool :=
+  Gen.fields.length == 24 &&
+  Gen.fields.all (fun f => (reOfField f.1).norm == (fieldRe (vsOf f.2.2.1) f.2.1).norm) &&
+  Gen.fields.all (fun f => match f.2.1 with
+    | [] => false
+    | a :: n => !(CSet.space.test a) && (a :: n).all (· != 32)) &&
+  (Gen.fields.map (·.2.1)).Nodup
+
+theorem gen_fields : fieldsOK = true := by decide
+
+/-- C10, non-interference for the shipped recognisers: two different fields of the table never match the same string -/
+theorem C10_noninterference (f f' : String × Str × Nat × Gen.Default) (hf : f ∈ Gen.fields) (hf' : f' ∈ Gen.fields)
+    (hne : f.2.1 ≠ f'.2.1) (s : Str) (c c' : Caps)
+    (h : (reOfField f.1).matchGroups s = some c) (h' : (reOfField f'.1).matchGroups s = some c') : False := by
+  have hg := gen_fields
+  unfold fieldsOK at hg
+  simp only [Bool.and_eq_true, List.all_eq_true] at hg
+  obtain ⟨⟨⟨_, hnorm⟩, hname⟩, _⟩ := hg
+  have e := hnorm f hf
+  have e' := hnorm f' hf'
+  simp only [beq_iff_eq] at e e'
+  rw [matchGroups_of_norm_eq e] at h
+  rw [matchGroups_of_norm_eq e'] at h'
+  have n1 := hname f hf
+  have n2 := hname f' hf'
+  cases hn : f.2.1 with
+  | nil => rw [hn] at n1; cases n1
+  | cons a n =>
+    cases hn' : f'.2.1 with
+    | nil => rw [hn'] at n2; cases n2
+    | cons a' n' =>
+      rw [hn] at n1 h; rw [hn'] at n2 h'
+      simp only [Bool.and_eq_true, Bool.not_eq_true', List.all_eq_true, bne_iff_ne] at n1 n2
+      have := Chartparse.Rx.field_disjoint a a' n n' s c c' n1.1 n2.1 n1.2 n2.2 _ _ h h'
+      rw [hn, hn'] at hne
+      exact hne this
+
+/-- C10, order independence: any permutation of the [Song] lines gives the same metadata when no field has two
+    matching lines -/
+theorem C10_order :
+    ∀ {l l' : List Str} (hp : l.Perm l')
+    (huniq : ∀ f ∈ Gen.fields, ∀ x ∈ l, ∀ y ∈ l, (((reOfField f.1).matchGroups x).bind (grp · 1)).isSome = true →
+      (((reOfField f.1).matchGroups y).bind (grp · 1)).isSome = true → x = y),
+    parseMeta l = parseMeta l' :=
+  @Chartparse.Meta.parseMeta_perm
+
+/-- C10: the documented defaults, as regenerated from the dataclass: offset 0, player2 BASS, difficulty 0, preview
+    start/end 0, genre "rock", media type "cd", the sixteen remaining string fields absent, resolution required -/
+theorem C10_defaults :
+    Gen.fields.map (fun f => (f.1, f.2.2.2)) =
+      [("resolution", .required), ("offset", .int 0), ("player2", .p2 (cp "bass")), ("difficulty", .int 0),
+       ("preview_start", .int 0), ("preview_end", .int 0), ("genre", .str (cp "rock")), ("media_type", .str (cp "cd")),
+       ("name", .none), ("artist", .none), ("charter", .none), ("album", .none), ("year", .none),
+       ("music_stream", .none), ("guitar_stream", .none), ("rhythm_stream", .none), ("bass_stream", .none),
+       ("drum_stream", .none), ("drum2_stream", .none), ("drum3_stream", .none), ("drum4_stream", .none),
+       ("vocal_stream", .none), ("keys_stream", .none), ("crowd_stream", .none)] := by decide
+
+/-- C10: an absent field takes its default (absent = no line matches its recogniser) -/
+theorem C10_absent :
+    ∀ (lines : List Str) (f : String × Str × Nat × Gen.Default)
+    (h : ∀ l ∈ lines, (reOfField f.1).matchGroups l = none),
+    parseField lines f = ofDefault f.2.2.2 :=
+  @Chartparse.Meta.parseField_absent
+
+/-- C10: without a Resolution line the parse raises MissingRequiredField -/
+theorem C10_required (lines : List Str) (h : ∀ l ∈ lines, (reOfField "resolution").matchGroups l = none) :
+    parseMeta lines = .error .missingRequiredField := by
+  have e : Gen.fields = ("resolution", cp "Resolution", 0, .required) :: Gen.fields.tail := by decide
+  unfold parseMeta
+  rw [e]
+  simp only [parseFields]
+  rw [parseField_absent lines _ h]
+  rfl
+
+/-- non-vacuity: a quoted name with inner quotes and `=`; the int field with Devanagari digits -/
+example : firstMatch (reOfField "name") [cp "  Album = \"x\"", cp "\tName = \"a \"b\" = c\"  "] = some (cp "a \"b\" = c") := by
+  decide
+example : (match parseField [cp "Offset = १२"] ("offset", cp "Offset", 0, .int 0) with | .ok (.int 12) => true | _ => false) = true := by
+  decide
 
 end Chartparse.Props.C10
